@@ -478,6 +478,7 @@ void exec_c35(const Plan& p, Ctx& ctx) {
             const std::int64_t t0 = sk::now_ns();
             bool ping = false;
             honest.call([&] { for (int i = 0; i < 6 && !ping; ++i) ping = e.d.ping(10000); });
+            if (!ping && sk::alive(e.d.pid)) sk::trace_blocked();
             if (!ping && !daemon_gone("final PING")) ctx.violate("C35.control_plane_unresponsive", "no PING answer within 60 s after every byzantine client had disconnected");
             bool hs = false;
             for (int i = 0; i < 4 && !hs && sk::alive(e.d.pid); ++i) hs = honest_handshake(e, honest, 100 + i, 15000);
